@@ -10,6 +10,7 @@ import json, os, re, subprocess, sys, shutil, time
 
 ENV = dict(os.environ, GOPROXY="off", GOSUMDB="off", GOTOOLCHAIN="local")
 ENV.pop("GOFLAGS", None); ENV.pop("GOWORK", None)
+LINT = os.environ.get("BPMNLINT", "/verif/bin/bpmnlint")
 FLAKY = ["TestNewProcessSetStartsDistinctExecutableProcesses"]
 PKGDIR = {"bpmn": ".", "bpmn_test": ".", "schema": "schema", "schema_test": "schema", "tracing": "pkg/tracing",
           "tracing_test": "pkg/tracing", "timer": "pkg/timer", "timer_test": "pkg/timer", "id": "pkg/id", "id_test": "pkg/id",
@@ -109,8 +110,8 @@ def main():
     res["suite_tries"] = tries
     # checker on the patched tree: new failing obligations relative to the same tree without the patch
     def failing(tree):
-        rules = subprocess.run("/verif/bin/bpmnlint -inventory rules 2>/dev/null | awk '{print $1}' | tr '\\n' ','", shell=True, capture_output=True, text=True, env=ENV).stdout.strip(",")
-        o = subprocess.run(["/verif/bin/bpmnlint", "-json", "-no-known", "-repo", tree, "-rules", rules], capture_output=True, text=True, env=ENV).stdout
+        rules = subprocess.run(LINT + " -inventory rules 2>/dev/null | awk '{print $1}' | tr '\\n' ','", shell=True, capture_output=True, text=True, env=ENV).stdout.strip(",")
+        o = subprocess.run([LINT, "-json", "-no-known", "-repo", tree, "-rules", rules], capture_output=True, text=True, env=ENV).stdout
         d = {}
         for line in o.splitlines():
             if line.startswith("{"):
@@ -123,7 +124,7 @@ def main():
     sh("git apply /tmp/confirm_%s.diff" % name, wt)
     newkeys = {k: v for k, v in after.items() if k not in before}
     prules = {}
-    for line in subprocess.run("/verif/bin/bpmnlint -inventory props 2>/dev/null", shell=True, capture_output=True, text=True, env=ENV).stdout.splitlines():
+    for line in subprocess.run(LINT + " -inventory props 2>/dev/null", shell=True, capture_output=True, text=True, env=ENV).stdout.splitlines():
         if line.startswith("C"):
             pid, rl = line.split(" ", 1)
             prules[pid] = [r.split("[")[0] for r in rl.split(",")]
